@@ -293,6 +293,10 @@ func TestVerifC13Leaks(t *testing.T) {
 			if life.ending == "respawn_window" && c.Chance(0.5) {
 				life.mid = append(life.mid, "graft_burst")
 			}
+			if (life.ending == "respawn_window" || life.ending == "out_only_reset_then_conn" || life.ending == "out_then_in_reset" || life.ending == "out_then_in_close") && c.Chance(0.5) {
+				// the victim GRAFTs over its own stream while the node has no stream to it
+				life.mid = append(life.mid, "sub", "graft")
+			}
 		}
 		c.Bubble(func() {
 			r := vNewRig(c)
